@@ -157,7 +157,13 @@ func applyRemovals(actions []pruneAction, dryRun bool, out io.Writer) error {
 	return errors.Join(errs...)
 }
 
-func indexRepositories(repositories []repositorySpec, opts gitindex.Options, out io.Writer) error {
+func indexRepositories(repositories []repositorySpec, opts gitindex.Options, out io.Writer, pruned ...pruneAction) error {
+	// Names whose shards a preview has announced for removal: -f deletes them
+	// before indexing, so the dry run must not find them up to date.
+	prunedNames := map[string]bool{}
+	for _, action := range pruned {
+		prunedNames[action.Name] = true
+	}
 	var errs []error
 	for _, repo := range repositories {
 		repoOpts := opts
@@ -170,6 +176,9 @@ func indexRepositories(repositories []repositorySpec, opts gitindex.Options, out
 		if err != nil {
 			errs = append(errs, fmt.Errorf("index %q from %s: %w", repo.Name, repo.Source, err))
 			continue
+		}
+		if repoOpts.DryRun && prunedNames[repo.Name] {
+			updated = true
 		}
 		if repoOpts.DryRun && updated {
 			fmt.Fprintf(out, "Would index %q from %s\n", repo.Name, repo.Source)
